@@ -15,6 +15,7 @@ import (
 	"regexp"
 	"sort"
 	"strings"
+	"sync"
 	"sync/atomic"
 	"time"
 
@@ -1033,14 +1034,7 @@ func CmdHistory(c *Common, o *HistoryOptions) int {
 	if err != nil {
 		return fail("NewPegnetd: %v", err)
 	}
-	t0 := time.Now()
-	if err := chain.SyncTo(n, sc.FC, sc.Last, c.Timeout); err != nil {
-		return fail("sync to %d: %s", sc.Last, firstLine(err.Error()))
-	}
-	syncMs := time.Since(t0).Milliseconds()
-	Logf("history: %s/%d synced to %d in %d ms", c.Scenario, c.Seed, sc.Last, syncMs)
-
-	// the real API server, started exactly as cmd/root.go does (never shut
+	// the real API server, started exactly as cmd/root.go does, BEFORE the sync (never shut
 	// down: srv.Shutdown(nil) would crash the process, see apiload)
 	addr, err := freePort()
 	if err != nil {
@@ -1048,6 +1042,54 @@ func CmdHistory(c *Common, o *HistoryOptions) int {
 	}
 	n.Config.Set(config.APIListen, addr)
 	srvDone := srv.NewAPIServer(n.Config, n).Start(make(chan struct{}))
+	for i := 0; i < 500; i++ {
+		if cn, err := net.DialTimeout("tcp", addr, 100*time.Millisecond); err == nil {
+			cn.Close()
+			break
+		}
+		time.Sleep(5 * time.Millisecond)
+	}
+	// wallets polling get-transaction-status for every transaction-chain entry WHILE the chain is synced: what a
+	// client was told in the middle of a block must not stick -- the walk below compares every status with the
+	// committed table afterwards (seeded C17-j: a status cache refilled between the UPDATE and the COMMIT)
+	var pollStop int32
+	var pollCalls int64
+	var pollWG sync.WaitGroup
+	{
+		var hashes []string
+		for ht := sc.First; ht <= sc.Last; ht++ {
+			for _, eh := range sc.FC.EntryHashes(ht, config.TransactionChain) {
+				hashes = append(hashes, hex.EncodeToString(eh[:]))
+			}
+		}
+		pc := &http.Client{Timeout: 30 * time.Second, Transport: &http.Transport{MaxIdleConnsPerHost: 4, MaxIdleConns: 4}}
+		for w := 0; w < 3 && len(hashes) > 0; w++ {
+			pollWG.Add(1)
+			go func(w int) {
+				defer pollWG.Done()
+				for i := w; atomic.LoadInt32(&pollStop) == 0; i++ {
+					body, _ := json.Marshal(map[string]interface{}{"jsonrpc": "2.0", "id": 1, "method": "get-transaction-status",
+						"params": map[string]interface{}{"entryhash": hashes[i%len(hashes)]}})
+					if resp, err := pc.Post("http://"+addr+"/v1", "application/json", bytes.NewReader(body)); err == nil {
+						io.Copy(io.Discard, resp.Body)
+						resp.Body.Close()
+						atomic.AddInt64(&pollCalls, 1)
+					} else {
+						time.Sleep(time.Millisecond)
+					}
+				}
+			}(w)
+		}
+	}
+	t0 := time.Now()
+	serr := chain.SyncTo(n, sc.FC, sc.Last, c.Timeout)
+	atomic.StoreInt32(&pollStop, 1)
+	pollWG.Wait()
+	if serr != nil {
+		return fail("sync to %d: %s", sc.Last, firstLine(serr.Error()))
+	}
+	syncMs := time.Since(t0).Milliseconds()
+	Logf("history: %s/%d synced to %d in %d ms under %d status polls", c.Scenario, c.Seed, sc.Last, syncMs, atomic.LoadInt64(&pollCalls))
 	up := false
 	for i := 0; i < 500 && !up; i++ {
 		if cn, err := net.DialTimeout("tcp", addr, 100*time.Millisecond); err == nil {
